@@ -89,8 +89,30 @@ def c07Packed : Handler := fun c => do
         (List.range (bs.getD t 0)).all (fun i =>
           rowsA.getD ((bs.take t).foldl (· + ·) 0 + i) []
             == ((pa.getD (sortIdx sidx i) []).getD t []))))
+  -- the hypotheses of C07_packed_valid / C07_packed_seq (a valid PackedSequence)
+  let bsA := bs.toArray
+  let mono := (List.range bs.length).all (fun i => (List.range i).all (fun j => bsA.getD i 0 ≤ bsA.getD j 0))
+  let pos := bs.all (fun b => 0 < b)
+  let head := bs.head? == some N
+  let steps := decide (bs.length ≤ T)
+  let perm := match sidx, uidx with
+    | none, none => true
+    | some s, some u => u.length == N &&
+        (List.range N).all (fun j => decide (u.getD j 0 < N) && s.getD (u.getD j 0) 0 == j)
+    | _, _ => false
+  -- the length C07_packed_seq assigns to sequence j = the length it was packed with
+  let lensGiven ← match fieldOpt c "lens" with
+    | none => pure none
+    | some v => some <$> jsonToList jsonToNat v
+  let lensOk := match lensGiven with
+    | none => true
+    | some ls => (List.range N).all (fun j =>
+        let pos := match uidx with | none => j | some u => u.getD j 0
+        (bs.filter (fun b => decide (pos < b))).length == ls.getD j 0)
   pure (objJ [("model", optJ ratsJ model), ("spec", ratsJ spec),
-    ("flags", objJ [("hbs", boolJ hbs), ("layout", boolJ layout)])])
+    ("flags", objJ [("hbs", boolJ hbs), ("layout", boolJ layout), ("mono", boolJ mono),
+      ("pos", boolJ pos), ("head", boolJ head), ("steps", boolJ steps), ("perm", boolJ perm),
+      ("lens", boolJ lensOk)])])
 
 def columnOf (rows : List (List Nat)) (n : Nat) : List Nat := rows.map (fun r => r.getD n 0)
 
@@ -116,6 +138,16 @@ def c07Walk : Handler := fun c => do
       ("lp", listJ optRatJ s.lp), ("done", listJ boolJ s.done), ("rescored", ratsJ rescored)]),
     ("spec", objJ [("paths", listJ natsJ paths), ("steps", natJ steps),
       ("chained", ratsJ chained)])])
+
+/-- c07.advance: {lp_t: N×V, lp_prev: N, y_prev: S×N, lens (or null), draw: N} -/
+def c07Advance : Handler := fun c => do
+  let lpT ← getList (jsonToList jsonToRat) c "lp_t"
+  let lpPrev ← getRatList c "lp_prev"
+  let yPrev ← getList (jsonToList jsonToNat) c "y_prev"
+  let lens ← getOptNatList c "lens"
+  let draw ← getNatList c "draw"
+  let r := advance (lpT.map (fun row => row.map some)) (lpPrev.map some) yPrev lens draw
+  pure (objJ [("model", objJ [("y", listJ natsJ r.1), ("lp", listJ optRatJ r.2)])])
 
 def sortRows (rows : List (List Nat)) : List (List Nat) := rows.foldr insertSorted []
 
@@ -156,14 +188,16 @@ def c07Dist : Handler := fun c => do
       ("check", listJ boolJ check)]),
     ("spec", objJ [("support", specSupp), ("log_probs", ratsJ specLps), ("mass", mass)])])
 
-/-- c07.sample: {V, N (null = no batch shape), M, eos, max_iters, lm, lm_default,
-draws: M × steps × N (batched) or steps × M (flat)} -/
+/-- c07.sample: {V, N (null = no batch shape), M, eos, max_iters (null = no step limit),
+lm, lm_default, draws: M × steps × N (batched) or steps × M (flat)} -/
 def c07Sample : Handler := fun c => do
   let V ← getNat c "V"
   let N ← getOptNat c "N"
   let M ← getNat c "M"
   let eos ← getOptNat c "eos"
-  let T ← getNat c "max_iters"
+  let Topt ← getOptNat c "max_iters"
+  -- `RandomWalk.forward`: "practically infinite" when `max_iters` is unset
+  let T := Topt.getD 1073741824
   let lm ← parseLM c
   let (rows, ns) ← match N with
     | none => do
@@ -176,8 +210,10 @@ def c07Sample : Handler := fun c => do
   -- without a batch shape every sample is its own batch element of the single walk; the
   -- harness LM ignores the batch index in that case (lm tables are all equal)
   let lps := (List.zip ns rows).map (fun nr => distLogProb lm V eos nr.1 (nr.2.map Int.ofNat))
-  let valid := rows.map (fun r => validateSample false V eosI (some T) (r.map Int.ofNat))
-  let inSupp := rows.map (fun r => (Spec.support V eos T).contains (padTo T (eos.getD 0) r))
+  let valid := rows.map (fun r => validateSample false V eosI Topt (r.map Int.ofNat))
+  let inSupp := rows.map (fun r => match Topt with
+    | some t => (Spec.support V eos t).contains (padTo t (eos.getD 0) r)
+    | none => supportCheck V eosI none (r.map Int.ofNat) && fillAfterEos r (eos.getD 0) (eos.getD 0) == r)
   pure (objJ [
     ("model", objJ [("rows", listJ natsJ rows), ("log_probs", ratsJ lps),
       ("valid", listJ boolJ valid)]),
@@ -211,4 +247,4 @@ def c07Greedy : Handler := fun c => do
 
 def main : IO Unit := Proto.run [
   ("c07.seq", c07Seq), ("c07.packed", c07Packed), ("c07.walk", c07Walk),
-  ("c07.dist", c07Dist), ("c07.sample", c07Sample), ("c07.greedy", c07Greedy)]
+  ("c07.dist", c07Dist), ("c07.advance", c07Advance), ("c07.sample", c07Sample), ("c07.greedy", c07Greedy)]
